@@ -545,6 +545,10 @@ def analyze_security(sec, events, init, table):
             c03_ok = False
         check_row(A, ti, e.af, e, own, allb, new_acb, acb_delta, per_share, gain,
                   led.shares(e.af), led.total(), led.cost(e.af), exp_delta, exp_gain)
+        if e.action == "Sell" and not is_reg(e.af) and (sflc is not None or e.sfl is not None) and not close(gain, exp_gain):
+            # C02: "the reported gain is the loss minus the denied amount" (denied amount as reported on the row)
+            F.append(Finding("C02", sec, "reported gain is not the loss minus the denied amount", row=ti, tool=gain, expected=exp_gain,
+                             denied=(sflc["amount"] if sflc else 0)))
         if gain is not None:
             A.gains.append((e.sd, gain))
             tool_gain_sum += gain
